@@ -144,6 +144,20 @@ def cases(ctx):
                 continue
             fn(cb)
             pair(base, cb, "edit", "%s: %s" % (bn, desc), imported=(desc != "keyAlgorithm"))
+    # seeded double edits (thorough): two single-field edits applied together, judged by the same rule
+    if not ctx.quick:
+        r = random.Random(ctx.seed)
+        for bn, mkbase in BASES.items():
+            base = mkbase()
+            es = [e for e in edits_for(base) if not isinstance(e[1], tuple)]
+            for _ in range(400):
+                (d1, f1), (d2, f2) = r.sample(es, 2)
+                cb = copy.deepcopy(base)
+                try:
+                    f1(cb); f2(cb)
+                except Exception:
+                    continue
+                pair(base, cb, "edit", "%s: %s + %s" % (bn, d1, d2), imported=("keyAlgorithm" not in (d1, d2)))
     # with profile: profile edits and non-semantic profile changes
     P, C = PROFILE(), WITHPROF()
     P2 = dict(copy.deepcopy(P), name="Q")
